@@ -112,6 +112,10 @@ func c13Script(c cfg.Config) fx.Script {
 			fx.Op{Op: "get", ID: s.Name, Ctx: "A"},
 			fx.Op{Op: "must", ID: "Must" + *s.Getter, Tag: s.Name},
 			fx.Op{Op: "must", ID: "Must" + *s.Getter, Ctx: "B", Tag: s.Name},
+			fx.Op{Op: "get", ID: s.Name, Ctx: "B"},                           // the context-bound must-getter and GetInContext see one context
+			fx.Op{Op: "must", ID: "Must" + *s.Getter, Ctx: "B", Tag: s.Name}, // and so does a second call
+			fx.Op{Op: "getter", ID: *s.Getter, Tag: s.Name},                  // plain getters: every call is a context of its own
+			fx.Op{Op: "must", ID: "Must" + *s.Getter, Tag: s.Name},
 		)
 	}
 	return fx.Script{Ops: ops, Env: scriptAll(c).Env}
